@@ -27,7 +27,7 @@ RULE = (
     "x.license, a.spdx.json, a.spdxx, a.spdx_json, REUSE.toml, .hgtags, ...) and ordinary names (spaces, non-ASCII), kinds text / empty / binary / "
     "symlink (to file, directory, dangling, outside), directories LICENSES, .reuse, .hg, .sl, subprojects at any depth; half the trees are Git "
     "repositories with generated .gitignore rules (names, anchored paths, directory rules, globs, negations, nested files), tracked and force-added "
-    "files and manual submodules; all four flag combinations.  Expected = reference model + `git check-ignore`.  Observed four ways: lint --json "
+    "files and manual submodules; all four flag combinations; plus two directed trees (submodule directly below subprojects/, nested look-alike directories) under every flag combination.  Expected = reference model + `git check-ignore`.  Observed four ways: lint --json "
     "(files + read errors), spdx FileName, lint-file on every path, files modified by annotate -r on a copy.  Non-trivial = tree has >= 1 covered and "
     ">= 1 excluded path; distinct by tree content + flags."
 )
@@ -261,6 +261,28 @@ def replay(ctx, case):
     check_tree(ctx, (spec, tuple(case["flags"]), case.get("mp", False), case.get("picks", [0, 1, 2]), case.get("nested", False), case.get("outside", False)))
 
 
+# Directed trees: the rarest interactions of the exclusion rules, under every flag combination (so that they are met at every seed)
+DIRECTED = [
+    # a Git submodule directly below subprojects/, another one elsewhere, an ordinary Meson subproject, an ignored directory
+    {"nodes": {"src/x.py": ("text", b"x = 1\n"), "subprojects/build/a.py": ("text", b"x = 1\n"), "subprojects/build/sub/b.txt": ("text", b"hello\n"),
+               "subprojects/plain/c.py": ("text", b"x = 1\n"), "libs/sm/y.py": ("text", b"x = 1\n"), "libs/sm/LICENSE": ("text", b"hello\n"),
+               "out/gen.py": ("text", b"x = 1\n"), "README.md": ("text", b"hello\n")},
+     "git": {"ignore": {"": ["out/"]}, "tracked": ["src/x.py"], "forced": [], "submodules": ["subprojects/build", "libs/sm"], "exclude": []}},
+    # no VCS: subprojects at two depths, LICENSES and .reuse look-alikes below a sub-directory
+    {"nodes": {"a.py": ("text", b"x = 1\n"), "subprojects/p/a.py": ("text", b"x = 1\n"), "d/subprojects/q/b.py": ("text", b"x = 1\n"), "d/LICENSES/MIT.txt": ("text", b"hello\n"),
+               "d/.reuse/dep5": ("text", b"hello\n"), "LICENSES/MIT.txt": ("text", b"hello\n"), "d/x.license": ("text", b"hello\n"), "d/COPYING.md": ("text", b"hello\n")},
+     "git": None},
+]
+
+
 def run(ctx):
+    k = 0
+    for spec in DIRECTED:
+        for flags in FLAGSETS:
+            for mp in (False, True):
+                k += 1
+                if k % ctx.nshards == ctx.shard:
+                    ctx.label("directed-tree")
+                    check_tree(ctx, (spec, flags, mp, [0, 1, 2], False, False))
     n = 150 if ctx.tier == "quick" else 2500
     hyp_run(ctx, "trees", case_strategy, lambda c: check_tree(ctx, c), n)
